@@ -1,0 +1,26 @@
+//go:build verif
+
+package galaxy
+
+import (
+	"bytes"
+	"net/http"
+	"net/http/httptest"
+
+	"github.com/emicklei/go-restful"
+	galaxyapi "tkestack.io/galaxy/pkg/api/galaxy"
+)
+
+// VerifCNI serves one CNI request body (the JSON the galaxy-sdn plugin posts to the unix socket) through the
+// real handler `cni` -> CniRequestToPodRequest -> requestFunc, without listening on the socket.
+func (g *Galaxy) VerifCNI(body []byte) (int, []byte) {
+	hr, _ := http.NewRequest("POST", "/cni", bytes.NewReader(body))
+	rec := httptest.NewRecorder()
+	g.cni(restful.NewRequest(hr), restful.NewResponse(rec))
+	return rec.Code, rec.Body.Bytes()
+}
+
+// VerifRequest calls requestFunc directly.
+func (g *Galaxy) VerifRequest(req *galaxyapi.PodRequest) ([]byte, error) {
+	return g.requestFunc(req)
+}
